@@ -202,6 +202,53 @@ def h_population(ctx: Ctx, cfg):
         undo()
 
 
+def h_step_counts(ctx: Ctx, cfg):
+    """fitness-using steps handed individuals that were never evaluated (selection after variation,
+    a fresh population): whatever the step evaluates goes through the evaluator - once per
+    individual, counted, and the recorded value is the program's"""
+    from geneticengine.algorithms.gp.operators.elitism import ElitismStep
+    from geneticengine.algorithms.gp.operators.novelty import NoveltyStep
+    from geneticengine.algorithms.gp.operators.selection import LexicaseSelection, TournamentSelection
+
+    from vf.engine.sym import FreshRandom
+
+    undo = _install_pool_stub()
+    try:
+        kind = cfg["step"]
+        comps = 2 if kind == "lexicase" else 0
+        fit = SymFitness(ctx, TABLES[2], components=comps)
+        if comps:
+            ms = [ctx.bool("minimize") for _ in range(comps)]
+            problem = MultiObjectiveProblem(list(ms), fit)
+        else:
+            ms = [ctx.bool("minimize")]
+            problem = SingleObjectiveProblem(fit, minimize=ms[0])
+        rep = TokRep()
+        n = cfg["n"]
+        inds = [Individual(rep.create_genotype(None), rep) for _ in range(n)]
+        ev = SequentialEvaluator() if cfg["evaluator"] == "seq" else ParallelEvaluator()
+        pre = [i for i in inds if ctx.bool("pre")]
+        if pre:
+            ev.evaluate(problem, pre)
+        step = {"tournament": lambda: TournamentSelection(2), "lexicase": lambda: LexicaseSelection(), "elitism": lambda: ElitismStep(), "novelty": lambda: NoveltyStep()}[kind]()
+        r = FreshRandom(ctx)
+        r.fixed = True  # which individuals the draws pick is not the subject here
+        k = ctx.cint(1, n, "k")
+        out = list(step.apply(problem, ev, rep, r, list(inds), k, 1))
+        ctx.reached()
+        per = {}
+        for t in fit.log:
+            per[t] = per.get(t, 0) + 1
+        for i in inds + [o for o in out if not any(o is j for j in inds)]:
+            ctx.require(per.get(i.genotype.k, 0) <= 1, "eval:fitness-function-invoked-more-than-once-for-an-individual", lambda: {"individual": i.genotype.k, "invocations": per.get(i.genotype.k, 0)})
+            if i.has_fitness(problem):
+                agg, cs = _expected(fit, i.genotype, ms)
+                ctx.require(list(i.get_fitness(problem).fitness_components) == cs, "eval:recorded-fitness-is-not-the-program's")
+        ctx.require(ev.number_of_evaluations() == len(fit.log), "eval:counter-differs-from-fitness-invocations", lambda: {"step": kind, "counter": ev.number_of_evaluations(), "invocations": len(fit.log), "preevaluated": len(pre), "n": n, "k": k})
+    finally:
+        undo()
+
+
 def _pool_fitness(tok):
     return float(tok.k * 10 + 1)
 
@@ -230,7 +277,7 @@ def h_real_pool(ctx: Ctx, cfg):
     ctx.require(out["par"][2] == 4, "eval:counter-differs-from-fitness-invocations", out)
 
 
-HARNESSES = {"real_pool": h_real_pool, "evaluator": h_evaluator, "two_problems": h_two_problems, "agree": h_agree, "population": h_population}
+HARNESSES = {"step_counts": h_step_counts, "real_pool": h_real_pool, "evaluator": h_evaluator, "two_problems": h_two_problems, "agree": h_agree, "population": h_population}
 
 
 def obligations(tier: str):
@@ -249,6 +296,9 @@ def obligations(tier: str):
         add("evaluator", f"{ev}_multi_bool", evaluator=ev, problem="multi_bool", components=2, n=2)
         add("two_problems", f"{ev}_two_problems", evaluator=ev, n=2)
         add("population", f"{ev}_population", evaluator=ev, n=2 if not T else 3)
+    for st in ("tournament", "lexicase", "elitism", "novelty"):
+        add("step_counts", f"seq_step_{st}_counts", evaluator="seq", step=st, n=2 if st == "lexicase" and not T else 3, timeout=150)
+    add("step_counts", "par_step_tournament_counts", evaluator="par", step="tournament", n=3)
     add("real_pool", "concrete_real_process_pool_agrees_with_sequential", timeout=120)
     add("agree", "agree_single", problem="single", n=N, preevaluated=True, duplicates=True)
     add("agree", "agree_multi", problem="multi", components=2, n=2, preevaluated=True)
